@@ -51,8 +51,8 @@ KIND_ORDER = ['multiline', 'polygon', 'multipolygon', 'line', 'multipoint', 'rin
 
 READ_LOG = []
 DD_LOG = []
-CN_FN = "fun '(ix, cols) => cols_no_index ix cols"
-CN_CASE = 'list idxdesc * option (list string)'
+CN_FN = "fun '(has_md, ix, cols) => cols_no_index has_md ix cols"
+CN_CASE = 'bool * list idxdesc * option (list string)'
 CN_RES = 'option (list string)'
 
 
@@ -112,6 +112,7 @@ class recording:
 
 
 def md_terms(md):
+    md = md or {}
     cols = [(C.Some(c['field_name']) if 'field_name' in c and c['field_name'] is not None else None,
              C.Some(str(c['name'])) if c.get('name') is not None else None)
             for c in md.get('columns', [])]
@@ -133,6 +134,8 @@ class Acc:
         self.fa = ([], [], [])
         self.rc_seen = set()
         self.cn = ([], [], [])
+        self.nm = ([], [], [])
+        self.nm_seen = set()
 
 
 def flush_read_log(acc, requested, meta):
@@ -140,7 +143,7 @@ def flush_read_log(acc, requested, meta):
         # columns handed to Dask's reader for the meta frame (index columns taken out)
         _, idx = md_terms(READ_LOG[0][0])
         for passed in DD_LOG:
-            acc.cn[0].append((idx, None if requested is None else C.Some(list(requested))))
+            acc.cn[0].append((bool(READ_LOG[0][0]), idx, None if requested is None else C.Some(list(requested))))
             acc.cn[1].append(None if passed is None else C.Some(passed))
             acc.cn[2].append({**meta, 'passed_to_dask': passed})
     DD_LOG.clear()
@@ -179,6 +182,64 @@ def same_values(a, b):
     return True
 
 
+NM_FN = 'restore_index_name'
+NM_CASE = 'option string'
+NM_RES = 'option string'
+_PA_LEVEL = re.compile(r'^__index_level_\d+__$')
+
+
+def note_index_name(acc, exp, got, meta):
+    """the name of a one-level index as read back, to be compared inside Coq with
+    Model/ParquetCols.v restore_index_name applied to the name the writer stored (Dask stores an
+    unnamed index under its placeholder)"""
+    if exp.index.nlevels != 1 or got.index.nlevels != 1:
+        return
+    w = exp.index.name
+    if w is not None and not (isinstance(w, str) and w.isascii() and not _PA_LEVEL.match(w)
+                              and w != '__null_dask_index__'):
+        return
+    stored = C.Some(w) if w is not None else (
+        C.Some('__null_dask_index__') if meta.get('path_kind') == 'dask' else None)
+    r = got.index.name
+    res = None if r is None else C.Some(r if isinstance(r, str) and r.isascii() else repr(r))
+    key = (C.coq(stored), C.coq(res), meta.get('path_kind'))
+    if key in acc.nm_seen:
+        return
+    acc.nm_seen.add(key)
+    acc.nm[0].append(stored)
+    acc.nm[1].append(res)
+    acc.nm[2].append({**meta, 'index_name_written': w, 'index_name_read': r})
+
+
+def decorate_frame(rng, df, cfg):
+    """round 4, all driven by cfg (absent keys: the frame is returned as it is): a typed index
+    (`index_dtype`), a reserved-looking index name (`index_name`; a list for a MultiIndex), extra
+    non-geometry columns of other dtype families (`extras`), columns renamed to reserved-looking
+    names (`colnames`)"""
+    import pandas as pd
+    from spatialpandas import GeoDataFrame
+    n = len(df)
+    idt = cfg.get('index_dtype')
+    if idt and df.index.nlevels == 1:
+        name = df.index.name if df.index.name is not None else None
+        df.index = pd.Index(U.typed_values(rng, idt, n, 'index'), name=name)
+    nm = cfg.get('index_name')
+    if nm is not None:
+        if df.index.nlevels == 1:
+            df.index = df.index.rename(nm if isinstance(nm, str) else nm[0])
+        elif not isinstance(nm, str):
+            df.index = df.index.set_names(list(nm)[:df.index.nlevels])
+    for key in cfg.get('extras') or []:
+        df.insert(rng.randint(0, len(df.columns)), 'x_' + key, U.typed_values(rng, key, n))
+    ren = cfg.get('colnames')
+    if ren:
+        taken = set(df.columns) | set(x for x in df.index.names if x is not None)
+        ren = {a: b for a, b in ren.items() if a in df.columns and b not in taken}
+        if ren:
+            df = GeoDataFrame({ren.get(c, c): df[c].array for c in df.columns}, index=df.index)
+    return df
+
+
 def compare_frames(rep, acc, exp, got, proj, meta, want_type):
     """exp: the frame written (rows in the order expected back); got: what was read"""
     from spatialpandas.geometry import GeometryDtype
@@ -205,10 +266,17 @@ def compare_frames(rep, acc, exp, got, proj, meta, want_type):
     if list(got.index.names) != list(exp.index.names):
         bad('index-name', f'index names {list(got.index.names)} differ from {list(exp.index.names)}',
             index_kind=meta.get('index_kind'))
-    elif not same_values(got.index, exp.index):
+    elif not (same_values(got.index, exp.index) if exp.index.nlevels > 1
+              else U.exact_list(got.index) == U.exact_list(exp.index)):
         sig = 'index-lost' if proj is not None else 'index-values'
-        bad(sig, f'index {repr(got.index)[:100]} differs from the written {repr(exp.index)[:100]}',
+        k = None
+        if exp.index.nlevels == 1:
+            le, lg = U.exact_list(exp.index), U.exact_list(got.index)
+            k = next((i for i in range(len(le)) if le[i] != lg[i]), None)
+        bad(sig, f'index {repr(got.index)[:100]} differs from the written {repr(exp.index)[:100]}'
+                 + (f' (position {k}: read {lg[k]}, written {le[k]})' if k is not None else ''),
             index_kind=meta.get('index_kind'))
+    note_index_name(acc, exp, got, meta)
     for c in exp_cols:
         e, g = exp[c], got[c]
         if isinstance(e.dtype, GeometryDtype):
@@ -240,16 +308,21 @@ def compare_frames(rep, acc, exp, got, proj, meta, want_type):
             except AttributeError:
                 rep.count('internal-unavailable:array-buffers')
         else:
-            if not same_values(e, g):
-                bad('values', f'column {c}: values differ', column=c)
-            if str(e.dtype) != str(g.dtype) and not (str(e.dtype) in ('object', 'str', 'string')
-                                                      and 'str' in str(g.dtype).lower()):
-                bad('payload-dtype', f'column {c}: dtype {g.dtype} read, {e.dtype} written', column=c)
+            le, lg = U.exact_list(e), U.exact_list(g)
+            if le != lg:
+                k = next((i for i in range(len(le)) if le[i] != lg[i]), None)
+                bad('values', f'column {c} ({e.dtype}): row {k} read as {lg[k]}, written {le[k]} '
+                              '(integers / nanoseconds / binary64 bit patterns, compared exactly)', column=c)
+            elif U.dtype_token(e.dtype) != U.dtype_token(g.dtype) and not (
+                    str(e.dtype) in ('object', 'str', 'string') and 'str' in str(g.dtype).lower()):
+                bad('payload-dtype', f'column {c}: dtype {U.dtype_token(g.dtype)} read, '
+                                     f'{U.dtype_token(e.dtype)} written', column=c)
 
 
 def projections(rng, df, quick):
     cols = list(df.columns)
-    geo = [c for c in cols if c.startswith('g')]
+    from spatialpandas.geometry import GeometryDtype
+    geo = [c for c in cols if isinstance(df[c].dtype, GeometryDtype)]
     import pandas as pd
     # a RangeIndex is stored as a descriptor, not as a column: its name cannot be requested
     idx = [] if isinstance(df.index, pd.RangeIndex) else index_level_names(df)
@@ -277,6 +350,7 @@ def pandas_roundtrip(rep, acc, sc, cfg):
     rng = random.Random(cfg['seed'])
     df, desc = U.make_frame(rng, cfg['nrows'], geom_cols(rng, cfg['kinds'], cfg['subtypes']),
                             index_kind=cfg['index_kind'], derive_steps=cfg['derive'], nan_p=cfg['nan_p'])
+    df = decorate_frame(rng, df, cfg)
     path = sc.new('f') + '.parq'
     meta = {'stream': 'roundtrip', 'path_kind': 'pandas', 'cfg': cfg, 'index_kind': cfg['index_kind']}
     try:
@@ -285,7 +359,7 @@ def pandas_roundtrip(rep, acc, sc, cfg):
     except Exception as e:
         rep.violation('write-raises:pandas:' + type(e).__name__, f'to_parquet raised {e!r}'[:300], meta)
         return
-    for proj in (cfg.get('projections') or projections(rng, df, cfg['quick'])):
+    for proj in (cfg.get('projections') or projections(rng, df, cfg['quick'] and not cfg.get('colnames'))):
         m = {**meta, 'columns': proj}
         READ_LOG.clear()
         try:
@@ -317,6 +391,7 @@ def dask_roundtrip(rep, acc, sc, cfg):
     for j in range(nds):
         df, desc = U.make_frame(rng, max(cfg['nrows'], nparts[j]), geom_cols(rng, cfg['kinds'], cfg['subtypes']),
                                 index_kind=cfg['index_kind'], derive_steps=cfg['derive'], nan_p=cfg['nan_p'])
+        df = decorate_frame(rng, df, cfg)
         if j:
             df = df[list(frames[0].columns)]
             df['v'] = df['v'] + 5000 * j
@@ -332,27 +407,49 @@ def dask_roundtrip(rep, acc, sc, cfg):
         written.append(ddf)
     import pandas as pd
     parts_by_ds = [[w.partitions[i].compute() for i in range(w.npartitions)] for w in written]
-    projs = cfg.get('projections') or projections(rng, frames[0], cfg['quick'])
+    projs = cfg.get('projections') or projections(rng, frames[0], cfg['quick'] and not cfg.get('colnames'))
     single_file = None
+    from pathlib import Path
+    from spatialpandas.geometry import GeometryDtype
+    variant = cfg.get('variant')
+    geo_cols = [c for c in frames[0].columns if isinstance(frames[0][c].dtype, GeometryDtype)]
     if nds == 1:
-        arg_list = [('single', paths[0], [0], projs)]
+        arg_list = [('single', paths[0], [0], projs, {})]
         if len(parts_by_ds[0]) >= 2:
             # one part file read on its own: exactly one piece
             jf = rng.randrange(len(parts_by_ds[0]))
             single_file = (os.path.join(paths[0], f'part.{jf}.parquet'), jf)
+        if variant == 'pathlib':
+            arg_list.append(('single-pathlib', Path(paths[0]), [0], projs[:2], {}))
+        elif variant == 'sindex':
+            arg_list.append(('single-sindex', paths[0], [0], projs[:2], {'build_sindex': True}))
+        elif variant == 'geometry':
+            gname = geo_cols[-1]
+            arg_list.append(('single-geometry', paths[0], [0], [None, [gname, 'v'], ['v', geo_cols[0], gname]],
+                             {'geometry': gname}))
     else:
         given = list(range(nds))
         rev = given[::-1]
         by_path = sorted(range(min(nds, 2)), key=lambda i: paths[i])     # the glob sees ds_a_east, ds_b_west
-        arg_list = [('list', [paths[i] for i in given], given, projs),
-                    ('list-reversed', [paths[i] for i in rev], rev, projs[:2]),
-                    ('glob', os.path.join(sc.dir, 'ds_*'), by_path, projs[:1])]
+        arg_list = [('list', [paths[i] for i in given], given, projs, {}),
+                    ('list-reversed', [paths[i] for i in rev], rev, projs[:2], {}),
+                    ('glob', os.path.join(sc.dir, 'ds_*'), by_path, projs[:1], {})]
         if nds == 3:
             rot = [2, 0, 1]
-            arg_list.append(('list-rotated', [paths[i] for i in rot], rot, projs[:1]))
+            arg_list.append(('list-rotated', [paths[i] for i in rot], rot, projs[:1], {}))
+        if variant == 'pathlib':
+            arg_list.append(('list-pathlib', [Path(paths[i]) for i in rev], rev, projs[:1], {}))
+        elif variant == 'sindex':
+            arg_list.append(('list-sindex', [paths[i] for i in given], given, projs[:1], {'build_sindex': True}))
+        elif variant == 'geometry':
+            arg_list.append(('list-geometry', [paths[i] for i in given], given, [None], {'geometry': geo_cols[-1]}))
     if single_file is not None and os.path.exists(single_file[0]):
-        arg_list.append(('single-file', single_file[0], None, projs[:1]))
-    for how, arg, order, hprojs in arg_list:
+        arg_list.append(('single-file', single_file[0], None, projs[:1], {}))
+        if variant == 'pathlib':
+            arg_list.append(('single-file', Path(single_file[0]), None, projs[:1], {}))
+    if variant == 'nosel':
+        none_selected(rep, acc, cfg, meta, paths if nds > 1 else paths[0], frames[0], projs[:2], rng)
+    for how, arg, order, hprojs, kw in arg_list:
         # rows come back dataset by dataset in the order the paths were GIVEN (glob: expansion order),
         # inside a dataset in part-number order, inside a part in stored order
         if how == 'single-file':
@@ -362,11 +459,12 @@ def dask_roundtrip(rep, acc, sc, cfg):
         exp = pd.concat(parts) if len(parts) > 1 else parts[0]
         for proj in hprojs:
             m = {**meta, 'columns': proj, 'how': how, 'dataset_order': order,
-                 'dataset_dirs': [names[i] for i in order]}
+                 'dataset_dirs': [names[i] for i in order], 'read_kwargs': kw,
+                 'path_argument': type(arg[0] if isinstance(arg, list) else arg).__name__}
             READ_LOG.clear()
             DD_LOG.clear()
             try:
-                r = read_parquet_dask(arg, columns=proj)
+                r = read_parquet_dask(arg, columns=proj, **kw)
                 got = r.compute()
             except Exception as e:
                 rep.violation('read-raises:dask:' + type(e).__name__, f'read_parquet_dask raised {e!r}'[:300], m)
@@ -413,6 +511,310 @@ def dask_roundtrip(rep, acc, sc, cfg):
             if nds > 1 and order != sorted(order, key=lambda i: paths[i]):
                 rep.count('dask:list-not-in-path-order')
             rep.nontrivial(('dask', json.dumps(cfg, sort_keys=True, default=str), how, str(proj)))
+
+
+# --------------------------------------------------------------------------
+# further ways into the same readers (round 4)
+# --------------------------------------------------------------------------
+def none_selected(rep, acc, cfg, meta, arg, frame, projs, rng):
+    """bounds= far away from every geometry: no partition is selected; what comes back is an empty
+    frame of the geo type with exactly the requested columns, their dtypes and the index name"""
+    from spatialpandas import GeoDataFrame
+    from spatialpandas.dask import DaskGeoDataFrame
+    from spatialpandas.geometry import GeometryDtype
+    from spatialpandas.io import read_parquet_dask
+    box = (1.0e6, 1.0e6, 2.0e6, 3.0e6)
+    if rng.random() < 0.5:
+        box = (box[2], box[3], box[0], box[1])         # corners given the other way round
+    idx_names = index_level_names(frame)
+    for proj in projs:
+        m = {**meta, 'columns': proj, 'how': 'no-partition-selected', 'read_kwargs': {'bounds': list(box)}}
+        try:
+            r = read_parquet_dask(arg, columns=proj, bounds=box)
+            got = r.compute()
+        except Exception as e:
+            rep.violation('read-raises:dask:' + type(e).__name__,
+                          f'read_parquet_dask(bounds=<box touching nothing>) raised {e!r}'[:300], m)
+            continue
+        rep.evaluations += 1
+        rep.count('dask:no-partition-selected')
+        rep.nontrivial(('nosel', json.dumps(cfg, sort_keys=True, default=str), str(proj)))
+        exp_cols = list(frame.columns) if proj is None else [c for c in proj if c not in idx_names]
+        if not isinstance(r, DaskGeoDataFrame) or not isinstance(got, GeoDataFrame):
+            rep.violation('result-type:dask', f'result is {type(r).__name__} / {type(got).__name__}', m)
+        if len(got) != 0:
+            rep.violation('nrows:dask', f'{len(got)} rows read through a box that touches no geometry', m)
+        elif list(got.columns) != exp_cols or list(r.columns) != exp_cols:
+            rep.violation('columns:dask', f'empty selection: columns {list(got.columns)} (meta {list(r.columns)}) '
+                                          f'differ from the requested {exp_cols}', m)
+        else:
+            for c in exp_cols:
+                e, g = frame[c].dtype, got[c].dtype
+                if U.dtype_token(e) != U.dtype_token(g) and not (
+                        str(e) in ('object', 'str', 'string') and 'str' in str(g).lower()):
+                    rep.violation('dtype:dask' if isinstance(e, GeometryDtype) else 'payload-dtype:dask',
+                                  f'empty selection: column {c} has dtype {g}, written {e}', {**m, 'column': c})
+            if list(got.index.names) != list(frame.index.names):
+                rep.violation('index-name:dask', f'empty selection: index names {list(got.index.names)} differ '
+                                                 f'from {list(frame.index.names)}', m)
+
+
+def foreign_written(rep, acc, sc, cfg):
+    """datasets that carry NO spatialpandas metadata: written by Dask's own to_parquet, and part files
+    written one by one with pandas' to_parquet; read alone, together, and next to a dataset written by
+    DaskGeoDataFrame.to_parquet.  Rows, dtypes, index must come back as written."""
+    import random
+    import pandas as pd
+    import dask.dataframe as dd
+    from pathlib import Path
+    from spatialpandas.io import read_parquet_dask
+    rng = random.Random(cfg['seed'])
+    meta = {'stream': 'foreign', 'path_kind': 'dask', 'cfg': cfg, 'index_kind': cfg['index_kind']}
+    gcols = geom_cols(rng, cfg['kinds'], cfg['subtypes'])
+    frames, parts = [], []
+    for j, k in enumerate(cfg['k']):
+        df, _ = U.make_frame(rng, max(cfg['nrows'], k), gcols, index_kind=cfg['index_kind'],
+                             derive_steps=cfg['derive'], nan_p=0)
+        df = decorate_frame(rng, df, cfg)
+        if j:
+            df = df[list(frames[0].columns)]
+        df['v'] = df['v'] + 5000 * j
+        frames.append(df)
+        ddf = dd.from_pandas(df, npartitions=k, sort=False)
+        parts.append((ddf, [ddf.partitions[i].compute() for i in range(ddf.npartitions)]))
+    P = [os.path.join(sc.dir, n) for n in ('w_dask_own', 'a_pandas_files', 'm_spatialpandas')]
+    try:
+        dd.to_parquet(parts[0][0], P[0], compression=cfg['compression'])
+        os.makedirs(P[1])
+        for i, part in enumerate(parts[1][1]):
+            pd.DataFrame.to_parquet(part, os.path.join(P[1], f'part.{i}.parquet'), compression=cfg['compression'])
+        parts[2][0].to_parquet(P[2], compression=cfg['compression'])
+    except Exception as e:
+        rep.violation('write-raises:dask:' + type(e).__name__, f'writing raised {e!r}'[:300], meta)
+        return
+    projs = cfg.get('projections') or projections(rng, frames[0], True)
+    reads = [('dask-own-writer', P[0], [0]), ('pandas-part-files', P[1], [1]),
+             ('foreign-list', [P[0], P[1]], [0, 1]), ('foreign-and-spatialpandas', [P[2], P[1], P[0]], [2, 1, 0]),
+             ('pandas-part-files-pathlib', Path(P[1]), [1])]
+    for how, arg, order in reads:
+        ps = [p for i in order for p in parts[i][1]]
+        exp = pd.concat(ps) if len(ps) > 1 else ps[0]
+        for proj in (projs if how != 'foreign-and-spatialpandas' else projs[:1]):
+            m = {**meta, 'columns': proj, 'how': how}
+            try:
+                r = read_parquet_dask(arg, columns=proj)
+                got = r.compute()
+            except Exception as e:
+                rep.violation('read-raises:dask:' + type(e).__name__,
+                              f'{how}: read_parquet_dask raised {e!r}'[:300], m)
+                continue
+            rep.evaluations += 1
+            rep.count('foreign:' + how)
+            rep.nontrivial(('foreign', cfg['seed'], how, str(proj)))
+            if r.npartitions != len(ps):
+                rep.violation('npartitions:dask', f'{how}: {r.npartitions} partitions read, {len(ps)} written', m)
+            if list(r.columns) != list(got.columns):
+                rep.violation('meta-columns:dask', f'{how}: meta columns {list(r.columns)} differ from the computed '
+                                                   f'{list(got.columns)}', m)
+            compare_frames(rep, acc, exp, got, proj, m, 'GeoDataFrame')
+
+
+def packed_divisions(rep, acc, sc, cfg):
+    """load_divisions=True over one and over two datasets written by pack_partitions_to_parquet: the
+    divisions of the list are those of the single reads put one after the other (or ValueError when that
+    sequence is not sorted), the rows are the rows of the single reads in the order given."""
+    import random
+    import pandas as pd
+    import dask.dataframe as dd
+    from spatialpandas.io import read_parquet_dask
+    rng = random.Random(cfg['seed'])
+    meta = {'stream': 'divisions', 'path_kind': 'dask', 'cfg': cfg, 'index_kind': 'hilbert_distance'}
+    gcols = geom_cols(rng, cfg['kinds'], cfg['subtypes'])
+    P, single = [], []
+    unavailable = None
+    for j, k in enumerate(cfg['k']):
+        df, _ = U.make_frame(rng, 4 * k + j, gcols, index_kind='range', derive_steps=0, nan_p=0)
+        df = df[sorted(df.columns)]
+        df['v'] = df['v'] + 5000 * j
+        path = os.path.join(sc.dir, f'packed_{j}')
+        m = {**meta, 'how': f'packed dataset {j} alone', 'columns': None}
+        try:
+            dd.from_pandas(df, npartitions=2).pack_partitions_to_parquet(path, npartitions=k, p=cfg['p'])
+            plain = read_parquet_dask(path).compute()
+        except Exception as e:
+            rep.violation('read-raises:dask:' + type(e).__name__,
+                          f'pack_partitions_to_parquet / read_parquet_dask raised {e!r}'[:300], m)
+            return
+        P.append(path)
+        try:
+            r = read_parquet_dask(path, load_divisions=True)
+            got = r.compute()
+        except Exception as e:
+            # load_divisions=True cannot be served at all for this dataset (the installed pyarrow's
+            # ParquetDataset has no row-group statistics to offer): the property says nothing about
+            # divisions; counted, and the list read below must then fail in the same way
+            rep.evaluations += 1
+            rep.count('load_divisions:unavailable:' + type(e).__name__)
+            unavailable = type(e)
+            continue
+        rep.evaluations += 1
+        rep.count('divisions:single')
+        if sorted(int(x) for x in got['v']) != sorted(int(x) for x in df['v']):
+            rep.violation('nrows:dask', f'{len(got)} rows read with load_divisions=True, {len(df)} written', m)
+            return
+        divs = list(r.divisions)
+        if any(d is None for d in divs) or len(divs) != r.npartitions + 1:
+            rep.violation('divisions:dask', f'load_divisions=True gave divisions {divs} for {r.npartitions} partitions', m)
+            return
+        # what the divisions promise: partition i holds index values in [d_i, d_i+1] (last one closed)
+        for i in range(r.npartitions):
+            ix = list(r.partitions[i].compute().index)
+            if ix and not (divs[i] <= min(ix) and max(ix) <= divs[i + 1]):
+                rep.violation('divisions:dask', f'partition {i} holds index values {min(ix)}..{max(ix)} outside its '
+                                                f'divisions [{divs[i]}, {divs[i + 1]}]', {**m, 'partition': i})
+                return
+        compare_frames(rep, acc, plain, got, None, m, 'GeoDataFrame')
+        single.append((divs, got))
+    if unavailable is not None:
+        m = {**meta, 'how': 'packed datasets [0, 1]', 'columns': None}
+        try:
+            r = read_parquet_dask(P, load_divisions=True)
+            rep.violation('divisions:dask', 'load_divisions=True is served for a list of two datasets '
+                                            f'({list(r.divisions)}) but raises {unavailable.__name__} for each of them alone', m)
+        except Exception as e:
+            rep.evaluations += 1
+            rep.count('load_divisions:unavailable:list:' + type(e).__name__)
+            if type(e) is not unavailable:
+                rep.violation('read-raises:dask:' + type(e).__name__,
+                              f'read_parquet_dask([two packed datasets], load_divisions=True) raised {e!r}, each alone '
+                              f'raises {unavailable.__name__}'[:300], m)
+        # the same list without divisions is an ordinary round trip
+        try:
+            exp = pd.concat([read_parquet_dask(x).compute() for x in P])
+            got = read_parquet_dask(P).compute()
+            rep.evaluations += 1
+            compare_frames(rep, acc, exp, got, None, m, 'GeoDataFrame')
+        except Exception as e:
+            rep.violation('read-raises:dask:' + type(e).__name__,
+                          f'read_parquet_dask([two packed datasets]) raised {e!r}'[:300], m)
+        return
+    for order in ([0, 1], [1, 0]):
+        mins = [d for i in order for d in single[i][0][:-1]]
+        want = mins + [single[order[-1]][0][-1]]
+        ok = want == sorted(want)
+        m = {**meta, 'how': f'packed datasets {order}', 'columns': None, 'expected_divisions': want}
+        exp = pd.concat([single[i][1] for i in order])
+        try:
+            r = read_parquet_dask([P[i] for i in order], load_divisions=True)
+            got = r.compute()
+            out = 'ok'
+        except ValueError as e:
+            out = 'ValueError'
+        except Exception as e:
+            rep.violation('read-raises:dask:' + type(e).__name__,
+                          f'read_parquet_dask([two packed datasets], load_divisions=True) raised {e!r}'[:300], m)
+            continue
+        rep.evaluations += 1
+        rep.count('divisions:list:' + ('sorted' if ok else 'unsorted'))
+        rep.nontrivial(('divisions', cfg['seed'], str(order)))
+        if ok and out != 'ok':
+            rep.violation('divisions-refused:dask', f'divisions {want} are sorted, yet load_divisions=True raised ValueError', m)
+        elif not ok and out == 'ok':
+            rep.violation('divisions-unsorted:dask', f'a frame with the unsorted divisions {list(r.divisions)} was returned '
+                                                     f'(single reads give {want})', m)
+        elif ok:
+            if list(r.divisions) != want:
+                rep.violation('divisions:dask', f'divisions {list(r.divisions)} differ from those of the single reads {want}', m)
+            compare_frames(rep, acc, exp, got, None, m, 'GeoDataFrame')
+
+
+def ctor_stream(rep, n):
+    """the constructors the parquet reader goes through (arrow array -> geometry array): a well-typed
+    arrow (Chunked)Array comes back element for element through __arrow_array__; an arrow array of the
+    wrong shape (too few list levels, a non-numeric leaf, an odd number of coordinates, a fixed-size
+    array without dtype) is rejected with an exception instead of yielding an array"""
+    import pyarrow as pa
+    from spatialpandas import geometry as g
+    rng = rep.rng
+    cls = {'point': g.PointArray, 'multipoint': g.MultiPointArray, 'ring': g.RingArray, 'line': g.LineArray,
+           'multiline': g.MultiLineArray, 'polygon': g.PolygonArray, 'multipolygon': g.MultiPolygonArray}
+    depth = {'multipoint': 1, 'ring': 1, 'line': 1, 'multiline': 2, 'polygon': 2, 'multipolygon': 3}
+
+    def nest(t, d):
+        for _ in range(d):
+            t = pa.list_(t)
+        return t
+
+    for kind in G.KINDS:
+        for st in G.SUBTYPES:
+            if kind == 'point':
+                continue
+            for rnd in range(n):
+                els = U.rand_elements(rng, kind, rng.randint(1, 5), st, 0.0)
+                typ = nest(pa.from_numpy_dtype(np.dtype(st)), depth[kind])
+                arr = pa.array(els, type=typ)
+                forms = [('array', arr)]
+                if len(els) > 1:
+                    c = rng.randint(1, len(els) - 1)
+                    forms.append(('chunked', pa.chunked_array([arr[:c], arr[c:]])))
+                    forms.append(('sliced', arr[1:]))
+                for form, a in forms:
+                    m = {'stream': 'ctor', 'kind': kind, 'subtype': st, 'elements': els, 'form': form}
+                    want = U.canon((a.combine_chunks() if isinstance(a, pa.ChunkedArray) else a).to_pylist())
+                    try:
+                        got = cls[kind](a)
+                        back = U.array_pylist(got)
+                    except Exception as e:
+                        rep.violation('ctor-raises:' + type(e).__name__,
+                                      f'{cls[kind].__name__}(<arrow {form} of {typ}>) raised {e!r}'[:300], m)
+                        continue
+                    rep.evaluations += 1
+                    rep.count('ctor:accepted')
+                    rep.nontrivial(('ctor', kind, st, form, str(els)))
+                    if back != want or str(got.dtype) != f'{kind}[{st}]':
+                        rep.violation('ctor-element', f'{cls[kind].__name__}(<arrow {form}>) holds {back} ({got.dtype}), '
+                                                      f'the arrow array holds {want}', m)
+    wrong = []
+    for kind in G.KINDS:
+        if kind == 'point':
+            wrong += [(kind, 'list-of-3', lambda: pa.array([[1.0, 2.0, 3.0]]), None),
+                      (kind, 'fixed-size-binary without dtype', lambda: pa.array([b'0123456789abcdef'], type=pa.binary(16)), None),
+                      (kind, 'chunked fixed-size-binary without dtype',
+                       lambda: pa.chunked_array([pa.array([b'0123456789abcdef'], type=pa.binary(16))]), None)]
+            continue
+        d = depth[kind]
+
+        def wrap(leaves, levels):
+            x = list(leaves)
+            for _ in range(levels - 1):
+                x = [x]
+            return x
+
+        for lv in range(0, d):
+            wrong.append((kind, f'{lv} list level(s) instead of {d}',
+                          (lambda lv=lv, wrap=wrap: pa.array([1.0, 2.0] if lv == 0 else wrap([1.0, 2.0], lv + 1))), None))
+        wrong.append((kind, 'string leaves', (lambda d=d, wrap=wrap: pa.array(wrap(['a', 'b'], d + 1))), None))
+        wrong.append((kind, 'bool leaves', (lambda d=d, wrap=wrap: pa.array(wrap([True, False], d + 1))), None))
+        wrong.append((kind, 'odd number of coordinates',
+                      (lambda d=d, wrap=wrap: pa.array(wrap([1.0, 2.0, 3.0], d + 1))), None))
+    wrong.append(('line', 'not an arrow array', lambda: object(), None))
+    for kind, what, mk, _ in wrong:
+        m = {'stream': 'ctor', 'kind': kind, 'wrong': what}
+        try:
+            a = mk()
+        except Exception:
+            continue
+        try:
+            got = cls[kind](a)
+            outcome = 'accepted'
+        except (ValueError, TypeError, AttributeError, pa.ArrowException):
+            outcome = 'rejected'
+        except Exception as e:
+            outcome = 'other:' + type(e).__name__
+        rep.evaluations += 1
+        rep.count('ctor:' + outcome.split(':')[0])
+        if outcome != 'rejected':
+            rep.violation('ctor-accepts-wrong-type', f'{cls[kind].__name__}(<arrow array: {what}>) -> {outcome}', m)
 
 
 # --------------------------------------------------------------------------
@@ -665,6 +1067,53 @@ def configs(rep, tier):
             dask_.append({'kinds': (k, k2), 'subtypes': (s, s2), 'nrows': rng.randint(4, 9), 'npartitions': 1,
                           'index_kind': ik, 'derive': t % 2, 'nan_p': 0, 'compression': comp[t % 3], 'sort': False,
                           'ndatasets': 1, 'seed': rng.randrange(10 ** 9), 'quick': quick})
+    # round 4: reserved-looking names, other dtype families, other ways into the reader
+    names = list(U.RESERVED_NAMES)
+    rng.shuffle(names)
+    cold = list(U.COL_DTYPES)
+    rng.shuffle(cold)
+    idxd = list(U.INDEX_DTYPES)
+    rng.shuffle(idxd)
+    multi_unsafe = ('cat', 'cat_ord', 'dt_tz', 'period')
+    cnt = {'n': 0, 'c': 0, 'i': 0, 'v': 0}
+
+    def nxt(pool, key):
+        cnt[key] += 1
+        return pool[(cnt[key] - 1) % len(pool)]
+
+    for t, cfg in enumerate(pand + dask_):
+        isdask = 'npartitions' in cfg
+        nds = cfg.get('ndatasets', 1)
+        ik = cfg['index_kind']
+        ex = [nxt(cold, 'c'), nxt(cold, 'c')]
+        if nds > 1:
+            ex = [k for k in ex if k not in multi_unsafe]
+        cfg['extras'] = ex
+        if t % 2 == 0 and ik != 'hilbert_distance':
+            nm = nxt(names, 'n')
+            if not (isdask and not nm.isascii() and False):
+                cfg['index_name'] = [nm, nxt(names, 'n')] if ik.startswith('multi') else nm
+        if t % 4 == 1 and not ik.startswith('multi') and nds == 1:
+            cfg['index_dtype'] = nxt(idxd, 'i')
+            if isdask:
+                cfg['sort'] = False
+        if t % 5 == 3:
+            cfg['colnames'] = {'s': nxt(names, 'n'), 'f': nxt(names, 'n'), 'gb': 'geometry'}
+        if isdask and t % 2 == 1:
+            cfg['variant'] = nxt(['pathlib', 'sindex', 'geometry', 'nosel'], 'v')
+    # an ordinary (non-index) column that is merely NAMED like the index of a packed dataset, or like a
+    # placeholder, requested by name: on every run, both paths, one and several partitions
+    for t, (nm, ik, npart) in enumerate([('hilbert_distance', 'range', 1), ('hilbert_distance', 'named', 3),
+                                         ('hilbert_distance', 'unnamed', 11), ('index', 'unnamed', 2),
+                                         ('level_0', 'range', 2)]):
+        k, s = rng.choice(combos)
+        k2, s2 = rng.choice(combos)
+        base = {'kinds': (k, k2), 'subtypes': (s, s2), 'index_kind': ik, 'derive': t % 2, 'nan_p': 0,
+                'compression': comp[t % 3], 'quick': quick, 'colnames': {'s': nm},
+                'projections': [[nm, 'ga'], ['gb', 'v', nm, 'f'], None]}
+        dask_.append({**base, 'nrows': npart * 2 + 1, 'npartitions': npart, 'sort': False, 'ndatasets': 1,
+                      'seed': rng.randrange(10 ** 9), 'variant': 'nosel' if t == 1 else None})
+        pand.append({**base, 'nrows': 5, 'seed': rng.randrange(10 ** 9), 'row_group_size': None})
     return pand, dask_
 
 
@@ -707,6 +1156,16 @@ def finish(rep, acc):
             rep.violation('decode-differs:' + metas[i]['path_kind'],
                           'the buffers read back do not decode (Model/Arrow.v) to the elements written, or are ill-formed',
                           {**metas[i], 'written_buffers': cases[i][0], 'read_buffers': cases[i][1]})
+    cases, ress, metas = acc.nm
+    if cases:
+        bad = C.coq_mismatches(PC_IMPORTS, NM_FN, NM_CASE, NM_RES, cases, ress)
+        for i in bad[:3]:
+            rep.violation('index-name-differs:' + metas[i]['path_kind'],
+                          f'index written with name {metas[i]["index_name_written"]!r} comes back named '
+                          f'{metas[i]["index_name_read"]!r}; Model/ParquetCols.v restore_index_name gives '
+                          + C.coq_eval(PC_IMPORTS, f'{NM_FN} {C.coq(cases[i])}'),
+                          metas[i])
+    rep.extra['index_name_cases'] = len(cases)
     rep.extra['read_columns_cases'] = len(acc.rc[0])
     rep.extra['decode_pairs'] = len(acc.la[0]) + len(acc.fa[0])
 
@@ -727,25 +1186,61 @@ def run(rep):
                 'and a glob pattern (dataset added / rewritten between two reads) within the process')
     acc = Acc()
     recording.rep = rep
+    import time
+    phases = rep.extra.setdefault('phase_seconds', {})
+    t_last = [time.time()]
+
+    def lap(name):
+        now = time.time()
+        phases[name] = round(phases.get(name, 0) + now - t_last[0], 1)
+        t_last[0] = now
+
     with dask.config.set(scheduler='synchronous'), U.Scratch() as sc, recording():
         for ent in corpus_entries():
             cfg = _cfg_from_json(ent['cfg'])
             (pandas_roundtrip if ent['path_kind'] == 'pandas' else dask_roundtrip)(rep, acc, sc, cfg)
+        lap('corpus')
         U.natsort_check(rep, U.natsort_cases(rep.rng, 100 if tier == 'quick' else 3000), 'C11')
         dtype_name_check(rep, dtype_name_cases(rep.rng, 150 if tier == 'quick' else 5000))
+        lap('natsort+dtype-names')
         pand, dask_ = configs(rep, tier)
         for cfg in pand:
             pandas_roundtrip(rep, acc, sc, cfg)
+        lap('pandas')
         for cfg in dask_:
             with U.Scratch() as s2:
                 dask_roundtrip(rep, acc, s2, cfg)
+        lap('dask')
         for t in range(1 if tier == 'quick' else 8):
             k, s = rep.rng.choice([(k, s) for k in G.KINDS for s in G.SUBTYPES])
             cfg = {'kinds': (k, 'point'), 'subtypes': (s, 'float64'), 'seed': rep.rng.randrange(10 ** 9),
                    'k': [(3, 12, 2), (2, 11, 1), (4, 13, 3)][t % 3], 'pack': t % 2 == 0}
             with U.Scratch() as s2:
                 reuse_history(rep, acc, s2, cfg)
+        lap('reuse')
+        combos = [(k, s) for k in G.KINDS for s in G.SUBTYPES]
+        for t in range(2 if tier == 'quick' else 12):
+            k, s = rep.rng.choice(combos)
+            k2, s2_ = rep.rng.choice(combos)
+            cfg = {'kinds': (k, k2), 'subtypes': (s, s2_), 'seed': rep.rng.randrange(10 ** 9), 'nrows': rep.rng.randint(3, 9),
+                   'k': [(2, 11, 3), (12, 1, 2), (1, 3, 11)][t % 3], 'index_kind': ['named', 'unnamed', 'range', 'str'][t % 4],
+                   'derive': t % 2, 'compression': ['snappy', None, 'gzip'][t % 3],
+                   'extras': [U.COL_DTYPES[(7 * t + 1) % 16], 'dt_ns'],
+                   'index_name': [None, 'index', 'level_0'][t % 3]}
+            with U.Scratch() as s2:
+                foreign_written(rep, acc, s2, cfg)
+        lap('foreign')
+        for t in range(1 if tier == 'quick' else 6):
+            k, s = rep.rng.choice(combos)
+            cfg = {'kinds': (k, 'point'), 'subtypes': (s, 'float64'), 'seed': rep.rng.randrange(10 ** 9),
+                   'k': [(1, 1), (2, 1), (3, 2)][t % 3], 'p': [6, 10, 3][t % 3]}
+            with U.Scratch() as s2:
+                packed_divisions(rep, acc, s2, cfg)
+        lap('divisions')
+        ctor_stream(rep, 1 if tier == 'quick' else 6)
+        lap('ctor')
     finish(rep, acc)
+    lap('coq')
 
 
 def replay(rep, rp):
@@ -759,6 +1254,14 @@ def replay(rep, rp):
             dtype_name_check(rep, [rp['string']])
         elif stream == 'reuse':
             reuse_history(rep, acc, sc, _cfg_from_json(rp['cfg']))
+        elif stream == 'foreign':
+            cfg = _cfg_from_json(rp['cfg'])
+            cfg['projections'] = [rp.get('columns')]
+            foreign_written(rep, acc, sc, cfg)
+        elif stream == 'divisions':
+            packed_divisions(rep, acc, sc, _cfg_from_json(rp['cfg']))
+        elif stream == 'ctor':
+            ctor_stream(rep, 3)
         else:
             cfg = _cfg_from_json(rp['cfg'])
             cfg['projections'] = [rp.get('columns')]
